@@ -259,6 +259,30 @@ json runTAHist(const json& c)
 				ev["ret"] = runInclSel(*H.h[j], *H.h[k], sel);
 			}
 			else if (kind == "empty") { ev["ret"] = H.h[j]->IsLangEmpty() ? "T" : "F"; }
+			else if (kind == "simdown")
+			{	// downward simulation with n = 3 (histories use the states 0..2): 3 x 3 matrix, -1 = lookup threw
+				VATA::SimParam sp;
+				sp.SetRelation(VATA::SimParam::e_sim_relation::TA_DOWNWARD);
+				sp.SetNumStates(3);
+				json m = json::array();
+				try
+				{
+					AutBase::StateDiscontBinaryRelation rel = H.h[j]->ComputeSimulation(sp);
+					for (size_t q = 0; q < 3; ++q)
+					{
+						json row = json::array();
+						for (size_t r = 0; r < 3; ++r)
+						{
+							int v;
+							try { v = rel.get(q, r) ? 1 : 0; } catch (const std::exception&) { v = -1; }
+							row.push_back(v);
+						}
+						m.push_back(row);
+					}
+				}
+				catch (const std::exception& e) { m = "X:" + ExcName(e); }
+				ev["ret"] = m;
+			}
 			else { throw std::runtime_error("vdrive: bad query kind"); }
 		}
 		else { throw std::runtime_error("vdrive: bad step " + op); }
